@@ -330,9 +330,15 @@ func (st *Runtime) executeSet(left Expression, right reflect.Value) {
 
 RESTART:
 	switch value.Kind() {
-	case reflect.Ptr:
+	case reflect.Ptr, reflect.Interface:
+		if value.IsNil() {
+			left.errorf("nil pointer evaluating %s.%s", getTypeString(value), fields[lef])
+		}
 		value = value.Elem()
 		goto RESTART
+	default:
+		// (neither a struct nor a map: there is nothing the assignment could change)
+		left.errorf("can't assign to %s: %s has no fields or entries", left, getTypeString(value))
 	case reflect.Struct:
 		value = value.FieldByName(fields[lef])
 		if !value.IsValid() {
